@@ -478,6 +478,11 @@ def keyed_collapses(F, g):
                     if s["lhs"]["l"] != 0 or s["lhs"]["p"]:
                         continue
                     rv = s["rv"]
+                    if is_map and rv["k"] == "agg" and rv.get("variant") in ("Ok", "Some") and len(rv.get("ops") or []) == 1:
+                        # `.map(|x| Ok((key(x)?, value)))` collected into a Result<Map, _> / Option<Map>
+                        inner = [o for o in mir.provenance(cfn, dc, rv["ops"][0]) if o.kind == "agg" and "tuple" in o.rv and len(o.rv["ops"]) == 2]
+                        if len(inner) == 1:
+                            rv = inner[0].rv
                     if is_map:
                         if not (rv["k"] == "agg" and "tuple" in rv and len(rv["ops"]) == 2):
                             continue
